@@ -132,8 +132,8 @@ class Gf180Walker(h.HierarchyWalker):
         # Map none to default, otherwise leave alone
         mostype = h.MosType.NMOS if params.tp is None else params.tp
         mosfam = h.MosFamily.CORE if params.family is None else params.family
-        mosvth = h.MosVth.STD if params.vth is None else params.vth
-        args = (mostype, mosfam, mosvth)
+        # Note this PDK's devices are not differentiated by threshold voltage
+        args = (mostype, mosfam)
 
         # Find all the xtors that match the args
         subset = {}
@@ -150,6 +150,9 @@ class Gf180Walker(h.HierarchyWalker):
 
         if len(subset) >= 2:
             msg = f"Mos module choice not well-defined given parameters {args}"
+            raise RuntimeError(msg)
+        if not subset:
+            msg = f"No Mos module for parameters {args}"
             raise RuntimeError(msg)
 
         # Return the first one (supported as of 3.7)
@@ -269,8 +272,8 @@ class Gf180Walker(h.HierarchyWalker):
 
     def bjt_module_call(self, params: BipolarParams):
         # First check our cache
-        if params in CACHE.diode_modcalls:
-            return CACHE.diode_modcalls[params]
+        if params in CACHE.bjt_modcalls:
+            return CACHE.bjt_modcalls[params]
 
         mod = self.bjt_module(params)
 
